@@ -60,8 +60,24 @@ def run_rules(prop, tier, rules):
     """rules(fx, rep) is evaluated once per configuration."""
     rep = core.Report(prop)
     for name, fx in configs(tier):
-        rules(fx, CfgReport(rep, name))
+        crep = CfgReport(rep, name)
+        try:
+            rules(fx, crep)
+        except core.Infra:
+            raise
+        except (exp_mod().NotDerivable, exp_mod().Budget) as e:
+            crep.fail('INTERNAL', 'rules-not-derivable', 'a rule could not be evaluated on this tree: %s' % e)
+        except Exception as e:       # fail closed: code the rules cannot digest is reported, not waved through
+            import traceback
+            tb = traceback.extract_tb(e.__traceback__)
+            loc = '%s:%d' % (os.path.basename(tb[-1].filename), tb[-1].lineno) if tb else '?'
+            crep.fail('INTERNAL', 'rules-raised', 'a rule could not be evaluated on this tree (%s: %s at %s): the code has a shape the rule does not handle' % (type(e).__name__, e, loc))
     return rep
+
+
+def exp_mod():
+    import exp
+    return exp
 
 
 # ---------------------------------------------------------------- positive controls
